@@ -39,9 +39,29 @@ def parseItems (s : String) : Option (List Item) :=
       | ["D", b] => do let b ← parseBox b; pure ⟨"D", b, b, [], false⟩
       | _ => none
 
+/-- diagnosis only (no effect on acceptance): name the call site of a rejected step.  A cell of a system with
+    equations that left the buffer without children although it is not in the paving, while it cannot be bisected
+    any more (every component ≤ eps_min), went through `Solver::check_sol`: it was discarded after a
+    certification attempt (Newton existence box disjoint from the cell, or violating an inequality). -/
+def refineError (hasEqs : Bool) (eps : List Ext) (evs : List Ev) (pv : Paving)
+    (cert : Box → Box × Box × List Nat → Bool) (e : String) : String :=
+  if !(e.startsWith "cell dropped") || !hasEqs then e else
+  -- the offending cell: the last pop before the first rejected prefix
+  let k := (List.range (evs.length + 1)).find? fun k =>
+    match (evs.take k).foldlM (Cover.step cert pv) Cover.St.init with
+    | .error _ => true
+    | .ok _ => false
+  let pre := match k with | some k => evs.take (k - 1) | none => evs
+  let lastPop := pre.foldl (fun (acc : Option Box) ev => match ev with | .pop b => some b | _ => acc) none
+  match lastPop with
+  | some b => if Cover.unknownSmall b eps then
+      "cell discarded after a certification attempt without uniqueness certificate (cell at minimal width)" else e
+  | none => e
+
 def opsSolver (op : String) (ins outs : List String) : Option String :=
   match op, ins, outs with
-  | "solvelog", [dags, specs, root, evs, pv], [_] => do
+  | "solvelog", [dags, specs, root, evs, pv, eps], [_] => do
+    let eps ← (eps.splitOn ";").mapM parseExt
     let ds ← (dags.splitOn "|").mapM parseProgram
     let ss := specs.splitOn "|"
     let eqs := ((List.zip ds ss).filter fun x => x.2 == "eq").map (·.1)
@@ -62,13 +82,15 @@ def opsSolver (op : String) (ins outs : List String) : Option String :=
           match (evs.take k).foldlM (Cover.step cert pv) Cover.St.init with
           | .error _ => true
           | .ok _ => false
+        let e := refineError (!eqs.isEmpty) eps evs pv cert e
         pure ("FAIL " ++ e.replace " " "-" ++ s!" at-event={k}")
     | _ => pure "FAIL log-does-not-start-with-the-root"
   | "resumeload", [saved], [loaded] => do
     let a ← parseItems saved
     let b ← parseItems loaded
     pure (if a == b then s!"ok loaded-identical" else "FAIL loaded-paving-differs-from-the-saved-one")
-  | "resumelog", [dags, specs, prev, evs, new], [_] => do
+  | "resumelog", [dags, specs, prev, evs, new, eps], [_] => do
+    let eps ← (eps.splitOn ";").mapM parseExt
     let ds ← (dags.splitOn "|").mapM parseProgram
     let ss := specs.splitOn "|"
     let eqs := ((List.zip ds ss).filter fun x => x.2 == "eq").map (·.1)
@@ -91,7 +113,9 @@ def opsSolver (op : String) (ins outs : List String) : Option String :=
       | none =>
       match Cover.check cert (Cover.pavingOf new) evs with
       | .ok _ => pure "FAIL stage-rejected"
-      | .error e => pure ("FAIL resumed-log-rejected:" ++ e.replace " " "-")
+      | .error e =>
+        let e := refineError (!eqs.isEmpty) eps evs (Cover.pavingOf new) cert e
+        pure ("FAIL resumed-log-rejected:" ++ e.replace " " "-")
   | "solbox", [dags, specs, root, e, u, vars, pts], _ => do
     let ds ← (dags.splitOn "|").mapM parseProgram
     let ss := specs.splitOn "|"
